@@ -112,8 +112,13 @@ def _reg(draw, idx: int, offset: int, width: int, want_fields: bool, zero_reset:
                 fields.append({"name": None, "uid": "", "off": off, "width": w, "shift": 0, "enums": [], "reset": 0})
             else:
                 f = {"name": "F%d" % k, "uid": "uid_r%d_f%d" % (idx, k), "off": off, "width": w, "shift": 0, "enums": [], "reset": 0}
-                kind = draw(st.sampled_from(["plain", "plain", "enum", "enum", "shift"]))
-                if kind == "enum":
+                kind = draw(st.sampled_from(["plain", "plain", "enum", "enum", "shift", "enum_shift"]))
+                if kind == "enum_shift" and w >= 2:
+                    # names for values of a field whose configuration value is the stored value shifted left (an address given in bytes, stored in pages)
+                    f["shift"] = draw(st.sampled_from([1, 2, 8]))
+                    for j in range(draw(st.integers(1, 3))):
+                        f["enums"].append(["F%d_E%d" % (k, j), draw(st.integers(0, (1 << w) - 1)) << f["shift"], draw(st.sampled_from(["int", "hex"]))])
+                elif kind == "enum":
                     n = draw(st.integers(1, 4))
                     dup_names = draw(st.integers(0, 3)) == 0  # the database reuses names such as "Reserved"/"Disable" for several values
                     for j in range(n):
